@@ -15,6 +15,7 @@ RULE = ("Generated programs (string literals include comment look-alikes such as
         "identical evaluator results on boundary inputs (random seeded identically when there is no splitter), also when the variant arrives through recompile() on a live evaluator that holds the plain rendering or the sibling text whose comment-ending line break is a blank. Non-trivial = "
         "variant containing at least one comment; distinct by variant text.")
 RULE += (' Since round 6: a fixed list of directive- / file-name- / code-like comment bodies at the start, the end (with and without a final line break) and between tokens.')
+RULE += (" Since rounds 14-15: comment sizes at 2^k-5..2^k+2; the unroutable error's message compared between variants; a slice of the catalogue under python -O / -OO.")
 ASSUMPTIONS = [
     "no comment is placed inside the two-word tokens `not in` / `else if` (only their inner whitespace varies)",
     "block-comment bodies contain neither */ nor /* (the README claims nesting, C does not nest: documentation ambiguous)",
